@@ -13,25 +13,37 @@ namespace Sb.C02
 open Sb Sb.Lights Sb.Proofs.Light Sb.C09
 
 /-- **the answer at `t` is the chain state in force at `t`** (fade evaluated at `t`), or the held final state -/
+theorem answer_on_chain_upTo (prog : Bytes) (H : Nat) (short : FadesShortUpTo prog H) (hist : List (Nat × Nat))
+    (hH : ∀ x ∈ hist, x.1 ≤ H) (t f : Nat) (htH : t ≤ H) (p r : Player)
+    (hp : seekAll (Player.fresh prog) hist = .ok p) (hr : p.seek t f = .ok r) (hni : NotInstantUpTo prog H t) :
+    (∃ k, 1 ≤ k ∧ liveUpTo prog (k + 1) ∧ (chain prog k).current < t ∧ t < (chain prog k).next ∧
+        r.exec.color = (stepFade (chain prog k).exec t).color ∧ r.exec.pyro = (chain prog k).exec.pyro ∧
+        r.exec.ended = false ∧ r.next = (chain prog k).next) ∨
+    (∃ m, 1 ≤ m ∧ liveUpTo prog m ∧ (chain prog m).exec.ended = true ∧ (chain prog m).current ≤ t ∧
+        r.exec.color = (chain prog m).exec.color ∧ r.exec.pyro = (chain prog m).exec.pyro ∧ r.exec.ended = true) := by
+  have ip := reachable_inv_upTo prog H short hist _ _ hH (inv_fresh prog) hp
+  obtain ⟨ir, cr⟩ := seek_inv prog H short p r t f htH ip hr
+  have h0 : t ≠ 0 := fun h0 => hni 0 (fun i h1 h2 => by omega) (Nat.zero_le _) (by rw [chain0_next, h0])
+  rcases ir with ⟨hc, _, _⟩ | ⟨k, hk, hl, hs, hn, hc1, hc2, _, hcol⟩ | ⟨m, hm, hl, he, hd, hc⟩
+  · omega
+  · left
+    rw [cr] at hc1 hc2 hcol
+    obtain ⟨b1, b2⟩ := live_strict hni htH hk hl hc1 hc2
+    exact ⟨k, hk, hl, b1, b2, hcol, hs.pyro, hs.ended.trans (hl k hk (by omega)), hn⟩
+  · right
+    rw [cr] at hc
+    exact ⟨m, hm, hl, he, hc, hd.color, hd.pyro, hd.ended⟩
+
+/-- the same with the hypotheses stated for the whole program (no horizon) -/
 theorem answer_on_chain (prog : Bytes) (short : FadesShort prog) (hist : List (Nat × Nat)) (t f : Nat) (p r : Player)
     (hp : seekAll (Player.fresh prog) hist = .ok p) (hr : p.seek t f = .ok r) (hni : NotInstant prog t) :
     (∃ k, 1 ≤ k ∧ liveUpTo prog (k + 1) ∧ (chain prog k).current < t ∧ t < (chain prog k).next ∧
         r.exec.color = (stepFade (chain prog k).exec t).color ∧ r.exec.pyro = (chain prog k).exec.pyro ∧
         r.exec.ended = false ∧ r.next = (chain prog k).next) ∨
     (∃ m, 1 ≤ m ∧ liveUpTo prog m ∧ (chain prog m).exec.ended = true ∧ (chain prog m).current ≤ t ∧
-        r.exec.color = (chain prog m).exec.color ∧ r.exec.pyro = (chain prog m).exec.pyro ∧ r.exec.ended = true) := by
-  have ip := reachable_inv prog short hist _ _ (inv_fresh prog) hp
-  obtain ⟨ir, cr⟩ := seek_inv prog short p r t f ip hr
-  have h0 : t ≠ 0 := fun h0 => hni 0 (fun i h1 h2 => by omega) (by rw [chain0_next, h0])
-  rcases ir with ⟨hc, _, _⟩ | ⟨k, hk, hl, hs, hn, hc1, hc2, _, hcol⟩ | ⟨m, hm, hl, he, hd, hc⟩
-  · omega
-  · left
-    rw [cr] at hc1 hc2 hcol
-    obtain ⟨b1, b2⟩ := live_strict hni hk hl hc1 hc2
-    exact ⟨k, hk, hl, b1, b2, hcol, hs.pyro, hs.ended.trans (hl k hk (by omega)), hn⟩
-  · right
-    rw [cr] at hc
-    exact ⟨m, hm, hl, he, hc, hd.color, hd.pyro, hd.ended⟩
+        r.exec.color = (chain prog m).exec.color ∧ r.exec.pyro = (chain prog m).exec.pyro ∧ r.exec.ended = true) :=
+  answer_on_chain_upTo prog (max t (histMax hist)) (short.upTo _) hist
+    (fun x hx => le_trans (le_histMax hist x hx) (Nat.le_max_right _ _)) t f (Nat.le_max_left _ _) p r hp hr (hni.upTo _)
 
 /-- between two wake-ups, without a fade, the answer is simply the colour the last command left -/
 theorem steady_colour (prog : Bytes) (short : FadesShort prog) (hist : List (Nat × Nat)) (t f k : Nat) (p r : Player)
